@@ -93,7 +93,8 @@ fn run_case(target: &str, seed: u64, len: usize) -> (String, String) {
         }
         "ScaleAmp::next" | "ScaleAmp::is_exhausted" | "Signal::scale_amp" => {
             let (sa, ca) = src(a.clone());
-            let amp = 0.5f32 + (seed % 3) as f32 * 0.25;
+            // (a gain of exactly 0 included: the source is pulled all the same)
+            let amp = if seed % 4 == 3 { 0.0f32 } else { 0.5f32 + (seed % 3) as f32 * 0.25 };
             let mut s = sa.scale_amp(amp);
             for i in 0..steps {
                 rec!(s.is_exhausted(), i >= a.len());
@@ -103,7 +104,7 @@ fn run_case(target: &str, seed: u64, len: usize) -> (String, String) {
         }
         "ScaleAmpPerChannel::next" | "ScaleAmpPerChannel::is_exhausted" | "Signal::scale_amp_per_channel" => {
             let (sa, ca) = src(a.clone());
-            let amp = [0.5f32, 0.25 + (seed % 3) as f32 * 0.25];
+            let amp = if seed % 4 == 3 { [0.0f32, 1.0] } else { [0.5f32, 0.25 + (seed % 3) as f32 * 0.25] };      // neutral / absorbing gains included
             let mut s = sa.scale_amp_per_channel(amp);
             for i in 0..steps {
                 rec!(s.is_exhausted(), i >= a.len());
@@ -113,7 +114,7 @@ fn run_case(target: &str, seed: u64, len: usize) -> (String, String) {
         }
         "OffsetAmp::next" | "OffsetAmp::is_exhausted" | "Signal::offset_amp" => {
             let (sa, ca) = src(a.clone());
-            let off = (seed % 100) as i16 - 50;
+            let off = if seed % 4 == 3 { 0 } else { (seed % 100) as i16 - 50 };      // a zero offset included
             let mut s = sa.offset_amp(off);
             for i in 0..steps {
                 rec!(s.is_exhausted(), i >= a.len());
@@ -123,7 +124,7 @@ fn run_case(target: &str, seed: u64, len: usize) -> (String, String) {
         }
         "OffsetAmpPerChannel::next" | "OffsetAmpPerChannel::is_exhausted" | "Signal::offset_amp_per_channel" => {
             let (sa, ca) = src(a.clone());
-            let off = [(seed % 100) as i16 - 50, 7];
+            let off = if seed % 4 == 3 { [0, 0] } else { [(seed % 100) as i16 - 50, 7] };
             let mut s = sa.offset_amp_per_channel(off);
             for i in 0..steps {
                 rec!(s.is_exhausted(), i >= a.len());
@@ -319,6 +320,15 @@ fn run_case(target: &str, seed: u64, len: usize) -> (String, String) {
             }
             let (sa, _) = src(a.clone());
             rec!(sa.into_interleaved_samples().into_iter().count(), 2 * a.len());
+            // into_iter in the MIDDLE of a frame: the iterator continues exactly where next_sample left off
+            for k in 0..(2 * a.len() + 1).min(5) {
+                let (sa, _) = src(a.clone());
+                let mut s = sa.into_interleaved_samples();
+                for i in 0..k { rec!(s.next_sample(), Some(a[i / 2][i % 2])); }
+                let rest: Vec<i16> = s.into_iter().collect();
+                let want: Vec<i16> = (k..2 * a.len()).map(|i| a[i / 2][i % 2]).collect();
+                rec!(rest, want);
+            }
         }
         "Buffered::next" | "Buffered::is_exhausted" | "Signal::buffered" | "Buffered::next_frames" | "BufferedFrames::next" | "Buffered::into_parts" => {
             // any capacity, any valid (start, len) pre-fill
